@@ -32,5 +32,3 @@ Ltac crunch :=
                 | match goal with |- context [match ?t with [] => _ | _ :: _ => _ end] => is_var t; destruct t end
                 | eqb_step ]).
 
-Lemma spread_after_key_rejected tail : parse_tag (s2n "k=..."%string ++ tail) = Err TemplateSyntaxError.
-Proof. unfold parse_tag. crunch. Show. Admitted.
